@@ -218,7 +218,39 @@ def check_lazy(case):
     return OK(len(expected) >= 2, "lazy")
 
 
-CHECKS = {"mesh": check_mesh, "biv": check_biv, "mixed": check_mixed, "lazy": check_lazy}
+def check_mesh_light(case):
+    """A mesh pattern with one or two shaded cells in a target several points longer: occurrence
+    list, count and the boolean entry points against the reference.  Cheap, so every target of a
+    length is swept (a pruning rule in the search needs room - spare points - to go wrong)."""
+    (p, sh), t = case
+    p, t = tuple(p), tuple(t)
+    shs = frozenset(tuple(c) for c in sh)
+    expected = ref.mesh_occ(p, shs, t)
+    M, T = MeshPatt(Perm(p), shs), Perm(t)
+    got = sorted(M.occurrences_in(T))
+    if got != expected:
+        return BAD("light_mesh_occurrences", {"pattern": [list(p), sorted(shs)], "target": list(t), "got": got, "expected": expected})
+    has = bool(expected)
+    if T.contains(M) != has or T.avoids(M) == has or M.contained_in(T) != has or T.count_occurrences_of(M) != len(expected):
+        return BAD("light_mesh_entry_points", {"pattern": [list(p), sorted(shs)], "target": list(t), "occurrences": len(expected)})
+    return OK(has and len(expected) < len(ref.occ(p, t)), "light_removed_some" if has else "light_none", key=f"{p}|{sorted(shs)}|{t}")
+
+
+def shard_mesh_light(acc, shard, nshards, plan):
+    """plan: (pattern length, number of shaded cells, target lengths)"""
+    i = 0
+    for k, ncells, tlens in plan:
+        cells = [(x, y) for x in range(k + 1) for y in range(k + 1)]
+        targets = [t for n in tlens for t in ref.perms(n)]
+        for p in ref.perms(k):
+            for sh in itertools.combinations(cells, ncells):
+                if i % nshards == shard:
+                    for t in targets:
+                        acc.record("mesh_light", check_mesh_light, [[list(p), [list(c) for c in sh]], list(t)])
+                i += 1
+
+
+CHECKS = {"mesh": check_mesh, "biv": check_biv, "mixed": check_mixed, "lazy": check_lazy, "mesh_light": check_mesh_light}
 
 
 # ------------------------------------------------------------------ generators
@@ -382,6 +414,10 @@ def shard_generated(acc, shard, nshards, n_mesh, n_biv, n_mixed):
 
 
 def run(acc, tier):
+    if tier == "quick":
+        engine.pmap(acc, shard_mesh_light, extra=([(2, 1, (6, 7, 8)), (2, 2, (7,)), (3, 1, (7,))],))
+    else:
+        engine.pmap(acc, shard_mesh_light, extra=([(2, 1, (6, 7, 8, 9)), (2, 2, (7, 8)), (3, 1, (7, 8)), (3, 2, (7,))],))
     if tier == "quick":
         engine.pmap(acc, shard_mesh_exhaustive, extra=(2, 5))
         engine.pmap(acc, shard_biv_exhaustive, extra=(3, 5))
